@@ -151,7 +151,7 @@ def main():
     tier = a.tier
     t0 = time.time()
     os.makedirs(WORK, exist_ok=True)
-    ev_path = os.path.join(VERIF, "evidence_scratch" if os.environ.get("VERIF_REPO") else "evidence", "C20.json")
+    ev_path = os.path.join(VERIF, "evidence_scratch" if (os.environ.get("VERIF_REPO") or os.environ.get("VERIF_EVIDENCE_SCRATCH")) else "evidence", "C20.json")
     if os.path.exists(ev_path):
         os.remove(ev_path)
     bmc_len = int(os.environ.get("C20_BMC", {"quick": 4, "thorough": 8}[tier])) if tier in ("quick", "thorough") else 5
